@@ -140,6 +140,19 @@ def main(argv):
     violations = []
     open_unknown = []
     known_hits = []
+    # witnesses: concrete scenarios attached to specific obligations; when the solver leaves such an obligation
+    # open, the scenario is replayed on the real code and decides (reproduced -> violation with replay)
+    for (key, name), g in sorted(byname.items()):
+        wmod = prop.get("witnesses", {}).get(name)
+        if wmod and (g["failed"] or g["unknown"]):
+            try:
+                rp = importlib.import_module(wmod).run()
+            except Exception as e:
+                rp = {"reproduced": False, "error": repr(e)}
+            for o in g["failed"] + g["unknown"]:
+                o["replay"] = rp
+            if rp.get("reproduced") and not g["failed"]:
+                g["failed"], g["unknown"] = g["unknown"], []
     for (key, name), g in sorted(byname.items()):
         if g["failed"] or g["unknown"]:
             kf = match_known(known, key, name, g)
